@@ -1,6 +1,6 @@
 #!/bin/sh
 # regenerates _CoqProject (all .v files below coq/, except cases/ and extract output) and the Makefile
 cd "$(dirname "$0")"
-{ echo "-Q . IT"; find model gen spec proofs props regress extract -name '*.v' | sort; } > _CoqProject.new
+{ echo "-Q . IT"; find model gen spec proofs props regress -name '*.v' | sort; } > _CoqProject.new
 if ! cmp -s _CoqProject.new _CoqProject 2>/dev/null; then mv _CoqProject.new _CoqProject; coq_makefile -f _CoqProject -o Makefile >/dev/null; else rm _CoqProject.new; fi
 [ -f Makefile ] || coq_makefile -f _CoqProject -o Makefile >/dev/null
